@@ -509,7 +509,12 @@ class CustomSD(BaseCorrelations):
                                       - 1j * tau * w))) \
                         / (1 - np.exp(-w / self.temperature))
                 else:
-                    inte = self._spectral_density(w) * np.exp(-1j * w * tau)
+                    # exp(-(beta - tau) w): of order one for Matsubara times
+                    # near beta (and below machine precision for real times)
+                    tmp = -(1 / self.temperature * w - 1j * tau * w)
+                    tmp = np.exp(tmp) if np.real(tmp) < 700.0 else 0.0
+                    inte = self._spectral_density(w) \
+                        * (np.exp(-1j * w * tau) + tmp)
                 return inte
 
         integral = _complex_integral(integrand,
@@ -583,8 +588,12 @@ class CustomSD(BaseCorrelations):
                             - np.exp(- w / self.temperature) - 1) \
                         / (1 - np.exp(-w / self.temperature)) + 1j*tau * w)
                 else:
+                    # exp(-(beta - tau) w): of order one for Matsubara times
+                    # near beta (and below machine precision for real times)
+                    tmp = -(w / self.temperature - 1j*tau * w)
+                    tmp = np.exp(tmp) if np.real(tmp) < 700.0 else 0.0
                     inte = self._spectral_density(w) / w ** 2 \
-                        * (np.exp(-1j * w * tau) - 1 + 1j * w * tau)
+                        * (np.exp(-1j * w * tau) + tmp - 1 + 1j * w * tau)
                 return inte
 
         integral = _complex_integral(integrand,
